@@ -7,8 +7,13 @@ from pyvc.contracts import contract, lemma, spec, harness, klass
 
 M = "aiortc.rtcdatachannel"
 klass(f"{M}:RTCDataChannel",
-      fields={"__bufferedAmount": "int", "__bufferedAmountLowThreshold": "int", "__readyState": "str", "__id": "opt[int]"},
+      fields={"__bufferedAmount": "int", "__bufferedAmountLowThreshold": "int", "__readyState": "str", "__id": "opt[int]",
+              "__parameters": "RTCDataChannelParameters", "__transport": "any", "__send_open": "bool"},
       ghost_fields={"emitted": "list[str]"})
+
+klass(f"{M}:RTCDataChannelParameters",
+      fields={"label": "str", "maxPacketLifeTime": "opt[int]", "maxRetransmits": "opt[int]", "ordered": "bool",
+              "protocol": "str", "negotiated": "bool", "id": "opt[int]"})
 
 contract(f"{M}:RTCDataChannel._addBufferedAmount", params={"amount": "int"},
          raises={},
@@ -20,6 +25,9 @@ contract(f"{M}:RTCDataChannel._addBufferedAmount", params={"amount": "int"},
                   "implies(not (old(self.__bufferedAmount) > self.__bufferedAmountLowThreshold and "
                   "old(self.__bufferedAmount) + amount <= self.__bufferedAmountLowThreshold), "
                   "len(self.emitted) == old(len(self.emitted)))"],
+         # listeners run inside emit() and may call send() on the same channel (the back-pressure idiom): they must see
+         # the amount already updated, and nothing may be written after they ran (after_emit obligations)
+         at_emit=["self.__bufferedAmount == old(self.__bufferedAmount) + amount"],
          modifies=["self.__bufferedAmount", "content(self.emitted)"], tags=["C13"],
          witness=[{"self": {"$class": "RTCDataChannel", "__bufferedAmount": 10, "__bufferedAmountLowThreshold": 4,
                             "__readyState": "open", "__id": 1}, "amount": -6}])
@@ -35,4 +43,16 @@ contract(f"{M}:RTCDataChannel._setReadyState", params={"state": "str"},
                   "self.emitted[len(self.emitted) - 1] == 'close')",
                   "implies(state != old(self.__readyState) and state != 'open' and state != 'closed', "
                   "len(self.emitted) == old(len(self.emitted)))"],
+         at_emit=["self.__readyState == state"],
          modifies=["self.__readyState", "content(self.emitted)"], tags=["C13"])
+
+# constructor as used by the transport for a remotely opened channel (send_open=False): no transport call is made
+contract(f"{M}:RTCDataChannel.__init__",
+         params={"transport": "any", "parameters": "RTCDataChannelParameters", "send_open": "bool"},
+         requires=["not parameters.negotiated", "not send_open"],
+         raises={},
+         ensures=["same(self.__parameters, parameters)", "self.__id == parameters.id", "self.__readyState == 'connecting'",
+                  "self.__bufferedAmount == 0 and self.__bufferedAmountLowThreshold == 0", "len(self.emitted) == 0"],
+         modifies=["self.__bufferedAmount", "self.__bufferedAmountLowThreshold", "self.__id", "self.__parameters",
+                   "self.__readyState", "self.__transport", "self.__send_open", "self.emitted"],
+         tags=["C13"])
